@@ -128,9 +128,9 @@ class Labware:
             raise ValueError(f"Invalid rows: {rows}")
         if not isinstance(columns, int) or columns < 1:
             raise ValueError(f"Invalid columns: {columns}")
-        if min_volume is None or min_volume < 0:
+        if min_volume is None or not min_volume >= 0:
             raise ValueError(f"Invalid min_volume: {min_volume}")
-        if max_volume is None or max_volume <= min_volume:
+        if max_volume is None or not max_volume > min_volume:
             raise ValueError(f"Invalid max_volume: {max_volume}")
         if virtual_rows is not None and rows != 1:
             raise ValueError("When using virtual_rows, the number of rows must be == 1")
@@ -157,6 +157,8 @@ class Labware:
             rows,
             columns,
         ), f"Invalid shape of initial_volumes: {initial_volumes.shape}"
+        if not np.all(np.isfinite(initial_volumes)):
+            raise ValueError("initial_volume must be finite")
         if np.any(initial_volumes < 0):
             raise ValueError("initial_volume cannot be negative")
         if np.any(initial_volumes > max_volume):
